@@ -9,7 +9,10 @@ def run(tier):
     run, fx = start("C24", tier,
         "T6/T5: the message chosen by trap_handler is a function of stack_ptr_in_bounds(sp) with sp read from the context's stack-pointer register; "
         "stack_ptr_in_bounds has the operand roles bottom <= sp < top over all segments; T3/T2: handler installed (SIGSEGV+SIGBUS, SA_ONSTACK, once) "
-        "before inner.resume and redirects only with a current coroutine.",
+        "before inner.resume and redirects only with a current coroutine; the process-wide handler touches the current coroutine only through its "
+        "type-independent `trap` slot (repr(C), parameter-free prefix, one constructor); T1 every path through the handler redirects unless no coroutine "
+        "is current; T1 incl. unwind: the suspender pushed for the body is popped on return, unwind and in the trap redirect; T2 error() is reached from "
+        "Syscall(.., Executing) only through running().",
         ["core/default"],
         not_decided=["everything after the redirect: corosensei's trap return, health of other coroutines and of the thread (needs execution)"],
         assumptions=["x86_64 Linux: REG_RSP holds the faulting stack pointer"])
